@@ -684,9 +684,6 @@ fn observe(bytes: &[u8]) -> String {
                             None => it.push(-1),
                         }
                     }
-                    if !h.object_infos.is_empty() {
-                        it.push(-777);
-                    }
                     it
                 })
                 .collect(),
@@ -851,6 +848,27 @@ fn observe(bytes: &[u8]) -> String {
                 }
                 items
             }
+            Err(_) => vec![],
+        },
+    ));
+    // the object-information chain of every handle, in chain order
+    secs.push((
+        status(&hd),
+        match &hd {
+            Ok(l) => l
+                .iter()
+                .map(|h| {
+                    let mut it: Item = vec![h.object_infos.len() as i128];
+                    for o in &h.object_infos {
+                        it.push(o.raw.info_type as i128);
+                        it.push(o.raw.size_of_info as i128);
+                        if o.info_type as u32 != o.raw.info_type {
+                            it.push(-777);
+                        }
+                    }
+                    it
+                })
+                .collect(),
             Err(_) => vec![],
         },
     ));
